@@ -620,7 +620,7 @@ class CExec:
             m = xa.clone()
             if xa.fn is not xb.fn:
                 m.fn = lambda t, _c=cond, _fa=xa.fn, _fb=xb.fn: ite(_c, _fa(t), _fb(t))
-            m.writes = xa.writes + [w for w in xb.writes if w not in xa.writes]
+            m.writes = xa.writes + xb.writes[len(base.arrs[aid].writes) if aid in base.arrs else 0:]
             out.arrs[aid] = m
         return out
 
@@ -737,7 +737,7 @@ class CExec:
                 memo[key] = res
                 return res
             arr.fn = newfn
-            arr.writes = arr.writes + [('loop', list(st.pc))]
+            arr.writes = arr.writes + [((tuple(idxs) if multi else 'loop'), list(st.pc))]
         st.env[var] = ite(hi > lo, hi, lo)
         for nm in mod_scalars:
             st.env[nm] = z3.FreshConst(post.env[nm].sort(), nm + '_after_loop')
